@@ -1368,3 +1368,262 @@ class IterationSlice:
                     if places_conflict(e.place, place) or (e.updates and any(places_conflict(e.place, nm) for nm in names[1:])):
                         out.append((place, e))
         return out
+
+
+# ------------------------------------------------------------------ a loop and the collection it walks
+# A `for` statement makes ONE iterator when it is entered; every later step reads the live object.  Changing the
+# size / order of that object between two steps is never "visit every element once": a list silently skips (or
+# repeats) the element that slides under the cursor, a set / dict raises RuntimeError.
+SHRINKERS = frozenset({"remove", "discard", "pop", "popitem", "popleft", "clear", "insert", "sort", "reverse",
+                       "intersection_update", "difference_update", "symmetric_difference_update", "appendleft",
+                       "extendleft", "rotate", "__delitem__"})
+GROWERS = frozenset({"add", "update", "append", "extend", "setdefault", "__setitem__"})
+LAZY_WRAPPERS = frozenset({"enumerate", "reversed", "iter", "zip", "filter", "map", "chain", "from_iterable", "islice",
+                           "zip_longest", "starmap", "takewhile", "dropwhile", "accumulate", "pairwise", "cycle", "tee"})
+VIEWS = frozenset({"items", "keys", "values", "__iter__"})
+
+
+def walked_places(it: ast.AST) -> set[str]:
+    """The places (`name`, `self.attr`) whose own object the iterator made from `it` steps through lazily:
+    the collection itself, a dict view of it, a lazy wrapper (`enumerate`, `reversed`, `zip`, `filter`, `chain`, a
+    generator expression, ...) around it.  A copy (`list(x)`, `sorted(x)`, `x[:]`, `x.copy()`, a list / set
+    comprehension) walks a new object: nothing of it is returned."""
+    out: set[str] = set()
+
+    def go(e: ast.AST | None, depth: int = 0) -> None:
+        if e is None or depth > 8:
+            return
+        d = dotted(e)
+        if d is not None:
+            out.add(d)
+        elif isinstance(e, ast.Call):
+            f = e.func
+            if isinstance(f, ast.Attribute) and f.attr in VIEWS and not e.args:
+                go(f.value, depth + 1)
+            name = f.id if isinstance(f, ast.Name) else (f.attr if isinstance(f, ast.Attribute) else None)
+            if name in LAZY_WRAPPERS:
+                for a in e.args:
+                    go(a.value if isinstance(a, ast.Starred) else a, depth + 1)
+        elif isinstance(e, ast.GeneratorExp):
+            for g in e.generators:
+                go(g.iter, depth + 1)
+        elif isinstance(e, ast.IfExp):
+            go(e.body, depth + 1)
+            go(e.orelse, depth + 1)
+        elif isinstance(e, ast.BoolOp):
+            for v in e.values:
+                go(v, depth + 1)
+        elif isinstance(e, ast.NamedExpr):
+            out.add(e.target.id)
+            go(e.value, depth + 1)
+
+    go(it)
+    return out
+
+
+def place_aliases(fn: FuncNode) -> dict[str, set[str]]:
+    """Places of `fn` that may name the same object because one was assigned the other (`a = b`, `a = self.x`,
+    `a = b or c`, `a = b if t else c`), transitively and flow-insensitively."""
+    parent: dict[str, str] = {}
+
+    def find(x: str) -> str:
+        while parent.setdefault(x, x) != x:
+            parent[x] = parent[parent[x]]
+            x = parent[x]
+        return x
+
+    def same(v: ast.AST | None) -> list[str]:
+        if v is None:
+            return []
+        d = dotted(v)
+        if d is not None:
+            return [d]
+        if isinstance(v, ast.IfExp):
+            return same(v.body) + same(v.orelse)
+        if isinstance(v, ast.BoolOp):
+            return [x for k in v.values for x in same(k)]
+        if isinstance(v, ast.NamedExpr):
+            return [v.target.id] + same(v.value)
+        return []
+
+    for s in fn.body:
+        for n in walk_no_nested(s):
+            if isinstance(n, (ast.Assign, ast.AnnAssign, ast.NamedExpr)):
+                ts = n.targets if isinstance(n, ast.Assign) else [n.target]
+                for t in ts:
+                    td = dotted(t)
+                    if td is not None:
+                        for v in same(n.value):
+                            parent[find(td)] = find(v)
+    groups: dict[str, set[str]] = {}
+    for x in list(parent):
+        groups.setdefault(find(x), set()).add(x)
+    return {x: g for g in groups.values() for x in g}
+
+
+def _is_list_value(v: ast.AST | None) -> bool:
+    return isinstance(v, (ast.List, ast.ListComp)) or (
+        isinstance(v, ast.Call) and isinstance(v.func, ast.Name) and v.func.id in ("list", "sorted"))
+
+
+def resizes(x: ast.AST, places: set[str], lists: set[str]) -> tuple[str, str] | None:
+    """(place, how) if the AST node `x` changes the number / order of the elements of the object at one of `places`
+    in place.  Tail growth of a *list* (`append`, `extend`, `+=`) is not counted: the running loop then also
+    visits the new elements, which is defined behaviour (work-list idiom).  Storing to an existing index / key
+    (`x[k] = v`, `x[k] += v`) does not resize and is not counted either."""
+    if isinstance(x, ast.Call) and isinstance(x.func, ast.Attribute):
+        d = dotted(x.func.value)
+        a = x.func.attr
+        if d in places:
+            if a in SHRINKERS:
+                return d, f".{a}()"
+            if a in GROWERS and not (d in lists and a in ("append", "extend")):
+                return d, f".{a}()"
+    elif isinstance(x, ast.AugAssign) and not isinstance(x.target, ast.Subscript):
+        d = dotted(x.target)
+        if d in places and not (d in lists and isinstance(x.op, ast.Add)):
+            return d, f"`{txt(x)[:40]}` (in place)"  # type: ignore[return-value]
+    elif isinstance(x, ast.Delete):
+        for t in x.targets:
+            if isinstance(t, ast.Subscript) and dotted(t.value) in places:
+                return dotted(t.value), "`del ...[...]`"  # type: ignore[return-value]
+    elif isinstance(x, ast.Assign):
+        for t in x.targets:
+            if isinstance(t, ast.Subscript) and isinstance(t.slice, ast.Slice) and dotted(t.value) in places:
+                return dotted(t.value), "slice assignment"  # type: ignore[return-value]
+    return None
+
+
+class LoopMutation:
+    """What a `for` loop of `fn` does to the collection it is walking (see `walked_places`): every statement in
+    the loop body — also inside an inner loop / comprehension, under an alias, or in a private method / nested
+    function / module function that is handed the collection (or reaches it as `self.<attr>` / a closure
+    variable), followed up to `max_depth` calls — that resizes it in place."""
+
+    def __init__(self, prog: Program, max_depth: int = 3) -> None:
+        self.prog = prog
+        self.max_depth = max_depth
+
+    @staticmethod
+    def _close(places: set[str], aliases: dict[str, set[str]]) -> set[str]:
+        out = set(places)
+        for p in places:
+            out |= aliases.get(p, set())
+        return out
+
+    @staticmethod
+    def _lists(fn: FuncNode, places: set[str], known: set[str] = frozenset()) -> set[str]:  # type: ignore[assignment]
+        """Places every definition of which in `fn` makes a list (or copies the reference of one): tail growth
+        of these is defined behaviour.  `known`: places that hold a list when `fn` is entered (parameters)."""
+        vals: dict[str, list[ast.AST | None]] = {}
+        stores: dict[str, int] = {}
+        for s in fn.body:
+            for n in walk_no_nested(s):
+                if isinstance(n, (ast.Assign, ast.AnnAssign)):
+                    for t in (n.targets if isinstance(n, ast.Assign) else [n.target]):
+                        d = dotted(t)
+                        if d in places:
+                            vals.setdefault(d, []).append(n.value)  # type: ignore[arg-type]
+                if isinstance(n, ast.AugAssign):
+                    d = dotted(n.target)
+                    if d is not None and d in places:
+                        stores[d] = stores.get(d, 0) - 1  # (`+=` keeps a list a list; any other operator is reported)
+                if isinstance(n, (ast.Name, ast.Attribute)) and isinstance(n.ctx, ast.Store):
+                    d = dotted(n)
+                    if d is not None and d in places:
+                        stores[d] = stores.get(d, 0) + 1
+        # (bound by something else than a plain assignment — loop / with / unpacking target: not known to be a list)
+        cand = {d for d in places if (d in known or vals.get(d)) and stores.get(d, 0) == len(vals.get(d, []))}
+        changed = True
+        while changed:
+            changed = False
+            for d in sorted(cand):
+                if not all(_is_list_value(v) or (v is not None and dotted(v) in cand) for v in vals.get(d, [])):
+                    cand.discard(d)
+                    changed = True
+        return cand
+
+    def _callees(self, fn: FuncInfo, call: ast.Call) -> list[FuncInfo]:
+        out: list[FuncInfo] = []
+        if isinstance(call.func, ast.Name):
+            scope: FuncInfo | None = fn
+            while scope is not None and not out:
+                for n in ast.walk(scope.node):
+                    if isinstance(n, _FuncTypes) and n.name == call.func.id and n is not scope.node:
+                        out.append(FuncInfo(n.name, scope.module, n, None, scope))
+                        break
+                scope = scope.outer
+        if not out:
+            try:
+                out = [c for c in self.prog.resolve_call(fn, call) if isinstance(c, FuncInfo)]
+            except AnalysisError:
+                out = []
+        return out
+
+    def in_nodes(self, fn: FuncInfo, stmts: Iterable[ast.AST], places: set[str], lists: set[str], depth: int = 0,
+                 seen: frozenset[str] = frozenset()) -> list[tuple[ast.AST, str, str]]:
+        """[(node of `fn` at which it happens, place, how)] for the statements `stmts` of `fn`."""
+        hits: list[tuple[ast.AST, str, str]] = []
+        for s in stmts:
+            for x in walk_no_nested(s):
+                r = resizes(x, places, lists)
+                if r is not None:
+                    hits.append((x, r[0], r[1]))
+                if isinstance(x, ast.Call) and depth < self.max_depth:
+                    for callee in self._callees(fn, x):
+                        if callee.qual in seen:
+                            continue
+                        inner = self._handed_over(x, callee, places)
+                        if not inner:
+                            continue
+                        closed = self._close(set(inner), place_aliases(callee.node))
+                        sub = self.in_nodes(callee, callee.node.body, closed,
+                                            self._lists(callee.node, closed, {q for q, p in inner.items() if p in lists}),
+                                            depth + 1, seen | {callee.qual})
+                        for _n, p, how in sub:
+                            hits.append((x, p, f"{how} inside `{callee.name}` (called at line {getattr(x, 'lineno', 0)})"))
+        return hits
+
+    @staticmethod
+    def _handed_over(call: ast.Call, callee: FuncInfo, places: set[str]) -> dict[str, str]:
+        """name under which the callee sees an object at one of `places` -> that place in the caller."""
+        out: dict[str, str] = {}
+        params = callee.params
+        if callee.cls is not None and callee.outer is None and isinstance(call.func, ast.Attribute) and params:
+            if dotted(call.func.value) == "self":
+                out.update({p: p for p in places if p.startswith("self.")})
+            params = params[1:]
+        args = call_args(call, params)
+        if args is not None:
+            for q, a in args.items():
+                d = dotted(a)
+                if d in places:
+                    out[q] = d  # type: ignore[assignment]
+        if callee.outer is not None:
+            # a nested function reads the enclosing function's variables unless it binds the name itself
+            own = set(callee.params) | {n.id for s in callee.node.body for n in walk_no_nested(s)
+                                        if isinstance(n, ast.Name) and isinstance(n.ctx, ast.Store)}
+            own -= {nm for s in callee.node.body for n in walk_no_nested(s) if isinstance(n, ast.Nonlocal) for nm in n.names}
+            out.update({p: p for p in places if p.split(".")[0] not in own and p not in out})
+        return out
+
+    def of_loop(self, fn: FuncInfo, loop: ast.For | ast.AsyncFor, cfg: CFG) -> tuple[set[str], list[tuple[ast.AST, str, str]]]:
+        """(the places walked, the resizing statements after which the same iterator is stepped again)."""
+        walked = walked_places(loop.iter)
+        if not walked:
+            return walked, []
+        places = self._close(walked, place_aliases(fn.node))
+        hits = self.in_nodes(fn, loop.body, places, self._lists(fn.node, places))
+        hs = cfg.nodes_of(loop)
+        if not hits or not hs:
+            return walked, hits
+        live: list[tuple[ast.AST, str, str]] = []
+        for h in hs:
+            back = {n for n, t in cfg.back_edges if t == h}
+            inside = cfg.co_reachable(back, avoid=[h], edge_ok=lambda a, b, lab: normal(a, b, lab))
+            for x, p, how in hits:
+                at = set(cfg.nodes_of(x)) | set(cfg.node_containing(x))
+                # (a node that cannot be located is kept: fail towards the report)
+                if (not at or at & inside) and not any(x is y for y, _p, _h in live):
+                    live.append((x, p, how))
+        return walked, live
